@@ -3,6 +3,15 @@
 import json, os
 V = "/verif"
 CHECKS = {
+ "C08": dict(cat="fault_enumeration",
+   text="generated lineage DAGs (<=12 seeds, independent and exclusive groups, monotone and non-monotone) x valid HybridConfigs x deadline expiry injected at EVERY clock reading n<=R through the injectable HybridClock, plus a two-jump sweep, a node-budget sweep and the same sweep on compile_lineage_to_sdd_with_clock; evaluate_topk with ample budgets; an end-to-end part drives Reasoner::infer_new_facts_with_hybrid on acyclic programs; oracle = explicit world enumeration over the harness's own copy of the formula: Exact equals the true probability, every interval contains it, Alert => p>=threshold, NoAlert => p<threshold, compiled WMC exact, never UnsafeApproximation",
+   note="trusted: world-enumeration oracle; exclusive group = exactly one member true with probability p_i (sum 1); every referenced seed is in the snapshot; budgets in (0,1h); invalid configurations must yield NeedsExact (from validate()); ~4% of cases with R>2500 are swept at 400 sampled n",
+   tech="property-based testing (proptest) + exhaustive fault enumeration over clock readings / node budgets against a possible-worlds oracle"),
+ "C10": dict(cat="exploration",
+   text="engines built through RSPBuilder from generated RSP-QL text (one window, 1-3 patterns, RSTREAM/ISTREAM/DSTREAM, 0-3 N3 rules sharing vocabulary with the stream) fed generated in-order streams; a probe CSPARQLWindow with identical parameters gives the content of every firing and the expected rows are the reference BGP answers over content + least fixpoint of the rules, through a stream-operator model; single-thread runs are compared per add call, multi-thread runs are repeated under perturbed schedules (hook H1 yield points + producer pauses) and compared chunk by chunk with the single-thread sequence",
+   note="trusted: probe window (C09 decides its own correctness), reference BGP evaluator and fixpoint; schedules are perturbed, not enumerated - the harness does not own the OS scheduler, so 'every thread schedule' is sampled only; stop()/flush() not called; IRIs only",
+   tech="model-based property testing (proptest) with seeded schedule perturbation through a cfg-guarded hook"),
+
  "C01": dict(cat="exploration",
    text="differential testing against an independent reference evaluator: generated (dataset, SELECT text) pairs over default+named graphs (empty graphs, same triple in several graphs) and a recursive query grammar (BGP, nested groups, UNION, GRAPH <iri>/?g, group-scoped FILTER, BIND, VALUES/UNDEF, sub-SELECT with modifiers, FROM/FROM NAMED, GROUP BY aggregates, DISTINCT/ORDER BY/LIMIT) run through execute_sparql_query (and the legacy volcano entry point); rows compared as multisets, sortedness under ORDER BY, legal-cut predicate under LIMIT",
    note="trusted: the nested-loop SPARQL 1.1 algebra evaluator in harness/src/sparql.rs (written from the spec, no engine code) and the supported-fragment restrictions a-f of DESIGN C01 enforced by construction; SELECT * column order = first syntactic appearance; sizes bounded (<=40 default triples, depth <=3)",
